@@ -743,21 +743,20 @@ def rw_closure_specs(toks, specs, rep, qual):
                 if tt == "|":
                     return out_p
             return None
-        if len(free) == len(lost_specs):
-            for i, (text, nth, retdecl, ens) in zip(free, lost_specs):
-                resolved.append((i, retdecl, ens))
-                rep.append(("hint", f"closure {text!r} #{nth}: anchor text gone, contract attached by position (closure {i})"))
-        else:
-            # fewer (or more) closures than before: attach a lost contract to the only free closure with the same
-            # parameter list; contracts of closures that no longer exist are dropped
-            for (text, nth, retdecl, ens) in lost_specs:
-                want = params_of_anchor(text)
-                cands = [i for i in free if want is not None and params_of_closure(i) == want]
-                same_params_lost = [t for (t, _, _, _) in lost_specs if params_of_anchor(t) == want]
-                if len(cands) == 1 and len(same_params_lost) == 1:
-                    resolved.append((cands[0], retdecl, ens)); free.remove(cands[0])
-                    rep.append(("hint", f"closure {text!r} #{nth}: anchor text gone, contract attached to the only uncontracted closure with the same parameters (closure {cands[0]})"))
-                else:
+        # a lost contract is re-attached only to an uncontracted closure with the SAME parameter list: per parameter
+        # list, if as many free closures remain as contracts were lost, pair them in source order; contracts of closures
+        # that no longer exist (no candidate) are dropped
+        groups = {}
+        for spec in lost_specs:
+            groups.setdefault(tuple(params_of_anchor(spec[0]) or ["?"]), []).append(spec)
+        for want, specs_g in groups.items():
+            cands = [i for i in free if list(want) == params_of_closure(i)]
+            if want != ("?",) and len(cands) == len(specs_g):
+                for i, (text, nth, retdecl, ens) in zip(cands, specs_g):
+                    resolved.append((i, retdecl, ens)); free.remove(i)
+                    rep.append(("hint", f"closure {text!r} #{nth}: anchor text gone, contract attached to the uncontracted closure with the same parameters (closure {i})"))
+            else:
+                for (text, nth, retdecl, ens) in specs_g:
                     rep.append(("LOST", f"closure {text!r} #{nth} not found: contract not attached"))
     for (k, retdecl, ens) in sorted(resolved, key=lambda x: -x[0]):
         (a, close, bs, be, block) = cl[k]
